@@ -302,7 +302,7 @@ theorem inv_callback (f : Int → Outcome) (s : St) (id : Int) (h : Inv f s) : I
         split
         · rw [if_pos fact_snapshot]; exact key
         · exact key
-      refine ⟨?_, ?_, ?_, ?_, ?_, ?_, ?_, ?_, ?_, ?_, h.noraise, h.caller⟩
+      refine ⟨?_, ?_, ?_, ?_, ?_, ?_, ?_, ?_, ?_, ?_, ?_, h.noraise, h.caller⟩
       · show 0 ≤ (callback s.th id).jobId; rw [callback_jobId]; exact h.jobnn
       · intro t' ht'
         show 0 < t'.id ∧ t'.id ≤ (callback s.th id).jobId
@@ -344,6 +344,10 @@ theorem inv_callback (f : Int → Outcome) (s : St) (id : Int) (h : Inv f s) : I
         by_cases e : t.id = id
         · rw [if_pos e] at hq' ⊢; exact h.onceD t ht hq'
         · rw [if_neg e] at hq' ⊢; exact h.onceD t ht hq'
+      · intro ho hcl
+        have : (callback s.th id).isOpen = false := hcl
+        rw [callback_isOpen] at this
+        exact h.storingOpen ho this
       · intro hcl todo hw
         refine ⟨by show (callback s.th id).isOpen = false; rw [callback_isOpen]; exact (h.closedW hcl todo hw).1, ?_⟩
         intro t' ht' hnd
